@@ -27,7 +27,44 @@ pub struct Case {
     pub res: Vec<u128>,
 }
 
+/// an ordinary pool: common decimals, amplification 10..1e6, a thousand to a trillion whole
+/// tokens per asset, at most 50:1 off balance
+fn gen_ordinary(rng: &mut StdRng) -> (usize, Vec<u8>, u64, Vec<u128>) {
+    let n = rng.gen_range(2..=4usize);
+    let decs: Vec<u8> = (0..n).map(|_| *[6u8, 8, 12, 18].choose(rng).unwrap()).collect();
+    let amp = log_uniform(rng, 10, 1_000_000) as u64;
+    let base = log_uniform(rng, 1_000, 1_000_000_000_000);
+    let res: Vec<u128> = decs
+        .iter()
+        .map(|d| {
+            let sk = if rng.gen_bool(0.5) { 1 } else { log_uniform(rng, 1, 7) };
+            (base * sk).min(9_000_000_000_000) * 10u128.pow(*d as u32) + rng.gen_range(0..10u128.pow(*d as u32))
+        })
+        .collect();
+    (n, decs, amp, res)
+}
+
 pub fn gen_pool(rng: &mut StdRng, extremes: bool) -> Case {
+    if extremes && rng.gen_range(0..4) == 0 {
+        let (n, decs, amp, res) = gen_ordinary(rng);
+        let denoms: Vec<String> = (0..n).map(|i| format!("tok{i}")).collect();
+        let fees = match rng.gen_range(0..3) {
+            0 => pool_fee(0, 0, 0, &[]),
+            1 => pool_fee(rng.gen_range(0..100), rng.gen_range(0..100), rng.gen_range(0..100), &[]),
+            _ => pool_fee(rng.gen_range(0..500), rng.gen_range(0..500), rng.gen_range(0..500), &[rng.gen_range(0..250), rng.gen_range(0..250)]),
+        };
+        let info = PoolInfo {
+            pool_identifier: "o.k".into(),
+            asset_denoms: denoms.clone(),
+            lp_denom: "factory/x/o.k.LP".into(),
+            asset_decimals: decs.clone(),
+            assets: denoms.iter().zip(res.iter()).map(|(d, r)| coin(*r, d.clone())).collect(),
+            pool_type: PoolType::StableSwap { amp },
+            pool_fees: fees,
+            status: PoolStatus::default(),
+        };
+        return Case { info, amp, decs, res };
+    }
     let n = rng.gen_range(2..=4usize);
     let dec_choices: &[u8] = if extremes && rng.gen_range(0..4) == 0 { &[0, 1, 2, 6, 18] } else { &[6, 8, 12, 18] };
     let decs: Vec<u8> = (0..n).map(|_| *dec_choices.choose(rng).unwrap()).collect();
@@ -114,13 +151,40 @@ pub fn quote_case(rng: &mut StdRng, c: &Case, rep: &mut Reporter) {
     let ctx = || {
         json!({"amp": c.amp, "decimals": c.decs, "reserves": c.res.iter().map(|x| x.to_string()).collect::<Vec<_>>(), "offer_index": i, "ask_index": j, "offer": offer.to_string(), "skew": sk})
     };
+    // the core of the supported range - ordinary pools and ordinary trades: amplification 10..1e6,
+    // reserves between a thousand and ten trillion whole tokens, at most 100:1 off balance,
+    // common decimals, an offer between a millionth and a tenth of the reserve. Here a quote
+    // must exist (the statement's accuracy clause is about a quote that is there)
+    let whole = |r: u128, d: u8| (r as f64) / 10f64.powi(d as i32);
+    let core = c.amp >= 10
+        && c.amp <= 1_000_000
+        && sk < 100.0
+        && c.decs.iter().all(|d| [6u8, 8, 12, 18].contains(d))
+        && c.res.iter().zip(c.decs.iter()).all(|(r, d)| whole(*r, *d) >= 1e3 && whole(*r, *d) < 1e13)
+        && (offer as f64) * 1e6 >= c.res[i] as f64
+        && (offer as f64) * 10.0 <= c.res[i] as f64;
+    if core {
+        match &r {
+            Ok(Ok(_)) => rep.held("core_range_quotes", hash_of(&(n, &c.decs, mag(c.amp as u128), i, j)), || json!({"case": ctx(), "result": "quoted"})),
+            Ok(Err(e)) => rep.failed("core_range_quotes", None, format!("an ordinary trade on an ordinary pool gets no quote: {e}"), witness(json!({"case": ctx(), "error": e.to_string()}))),
+            Err(_) => rep.failed("core_range_quotes", None, "an ordinary trade on an ordinary pool aborts".to_string(), witness(json!({"case": ctx()}))),
+        }
+    }
     let comp = match r {
         Ok(Ok(x)) => x,
         Ok(Err(e)) => {
+            if std::env::var("VERIF_C19_DEBUG").is_ok() {
+                let norm: Vec<i32> = c.res.iter().zip(c.decs.iter()).map(|(r, d)| mag(*r) - *d as i32).collect();
+                rep.count("fails_cleanly", &format!("DBG err={} amp_mag={} skew_mag={} offer_rel={} minwhole={} maxwhole={} maxdec={}", crate::ops::err_class(&e.to_string()), mag(c.amp as u128), mag(sk as u128), mag(offer) - mag(c.res[i]), norm.iter().min().unwrap(), norm.iter().max().unwrap(), c.decs.iter().max().unwrap()));
+            }
             rep.held("fails_cleanly", hash_of(&("err", crate::ops::err_class(&e.to_string()), n)), || json!({"case": ctx(), "result": format!("error: {e}")}));
             return;
         }
         Err(_) => {
+            if std::env::var("VERIF_C19_DEBUG").is_ok() {
+                let norm: Vec<i32> = c.res.iter().zip(c.decs.iter()).map(|(r, d)| mag(*r) - *d as i32).collect();
+                rep.count("fails_cleanly", &format!("DBG abort amp_mag={} skew_mag={} offer_rel={} minwhole={} maxwhole={} maxdec={}", mag(c.amp as u128), mag(sk as u128), mag(offer) - mag(c.res[i]), norm.iter().min().unwrap(), norm.iter().max().unwrap(), c.decs.iter().max().unwrap()));
+            }
             rep.held("fails_cleanly", hash_of(&("abort", n, mag(offer))), || json!({"case": ctx(), "result": "abort"}));
             return;
         }
